@@ -415,7 +415,7 @@ func pairwise() []cworld.Opts {
 }
 
 func optsName(o cworld.Opts) string {
-	return fmt.Sprintf("%s/et%v/pa-%s/fwd%v/prx%v/canon%v/renew%v/life%v/fast%v/freshkey%v", o.Cred, o.ETypes, o.PreAuth, o.Forwardable, o.Proxiable, o.Canonicalize, o.RenewLifetime, o.TicketLifetime, o.FAST, o.FreshRenewKey)
+	return fmt.Sprintf("%s/et%v/pa-%s/fwd%v/prx%v/canon%v/renew%v/life%v/fast%v/freshkey%v/strictrenew%v", o.Cred, o.ETypes, o.PreAuth, o.Forwardable, o.Proxiable, o.Canonicalize, o.RenewLifetime, o.TicketLifetime, o.FAST, o.FreshRenewKey, o.StrictRenewal)
 }
 
 // bfs explores histories for one configuration.
@@ -496,6 +496,10 @@ func Run(c *engine.Ctx) {
 	r2 := r
 	r2.FreshRenewKey = true
 	deep = append(deep, r2)
+	// the same against KDCs that refuse to renew a ticket once it has ended (the default model is lenient there)
+	r3 := r
+	r3.StrictRenewal = true
+	deep = append(deep, r3)
 	// clients built from a credential cache that holds a TGT and a service ticket with half the TGT's lifetime:
 	// not renewable, renewable, and renewable against a KDC that replaces the session key on renewal
 	for i := 0; i < 3; i++ {
